@@ -253,6 +253,21 @@ def run(ctx):
         for i in range(n_cases):
             m = uvl_model(g, g.rng.choice(sizes))
             check_model(ctx, sc, m, w, p, r, UVLWriter, UVLReader, "fragment")
+        for m in gen.nest_models(UVL_LOGICAL, chunk=4):
+            check_model(ctx, sc, m, w, p, r, UVLWriter, UVLReader, "nest-ctc")
+        for m in gen.case_twin_models():
+            check_model(ctx, sc, m, w, p, r, UVLWriter, UVLReader, "case-twins")
+        # the same operator nested in itself for the non-associative arithmetic operators
+        x, y, z = T("x"), T("y"), T("z")
+        arith = []
+        for o in ("SUB", "DIV", "ADD", "MUL"):
+            arith.append(OP("GREATER", OP(o, x, OP(o, y, z)), (("i", 0), None, None)))
+            arith.append(OP("GREATER", OP(o, OP(o, x, y), z), (("i", 0), None, None)))
+        am = gen.free_model(arith, names=("x", "y", "z"))
+        for f in spec.spec_features(am["root"]):
+            if f["name"] != "R":
+                f["type"] = "Integer"
+        check_model(ctx, sc, am, w, p, r, UVLWriter, UVLReader, "nest-arith")
     finally:
         sc.close()
 
